@@ -174,6 +174,11 @@ type UProver struct {
 	ExtraR0 bool
 	KssP    *big.Int
 
+	// Override mode: MUserResponses[0] carries the complete response for base R_0 (SCommit + c*Exps[0]) and SResponse is a free
+	// value STargetRand + c*STargetSecret, not covered by the commitment at all.
+	Override                   bool
+	STargetRand, STargetSecret *big.Int
+
 	VPrimeCommit, SCommit *big.Int
 	MCommit               map[int]*big.Int
 	Pcommit               *big.Int
@@ -239,6 +244,10 @@ func (p *UProver) Respond(c *big.Int) *gabi.ProofU {
 			m = new(big.Int).Sub(p.Exps[0], p.SSecret)
 		}
 		pr.MUserResponses[i] = new(big.Int).Add(r, new(big.Int).Mul(c, m))
+	}
+	if p.Override {
+		pr.MUserResponses[0] = new(big.Int).Add(p.SCommit, new(big.Int).Mul(c, p.Exps[0]))
+		pr.SResponse = new(big.Int).Add(p.STargetRand, new(big.Int).Mul(c, p.STargetSecret))
 	}
 	return pr
 }
